@@ -303,6 +303,12 @@ def rule_comment_kind(repo, res):
                             continue
                         except AnalysisError:
                             raise
+                        except (TypeError, AttributeError) as x:
+                            res.add(Finding("LEX-TOTAL", "lexer.lex_char", f"raises {type(x).__name__} inside a comment",
+                                            f"with {gcls}, inside a comment opened by {opener!r} lex_char raises {type(x).__name__} ({x}) "
+                                            f"for the character {char!r} (previous {prev!r}, next {nxt!r}; None = the text ends there)",
+                                            witness=lexeme + char, where="pvl/lexer.py"))
+                            continue
                         except Exception as x:
                             raise AnalysisError(f"COMMENT-KIND: lex_char could not be interpreted ({type(x).__name__}: {x}) for "
                                                 f"{gcls}, comment {opener!r}, char {char!r}")
@@ -323,6 +329,55 @@ def rule_comment_kind(repo, res):
                                         f"{char!r} after {prev!r} before {nxt!r} although the lexeme {lex2!r} does not end with its own end "
                                         "text: delimiters of another comment kind inside a comment change what is commented out",
                                         witness=lexeme + char + (nxt or ""), where="pvl/lexer.py"))
+        # LEX-TOTAL: outside any preservation state, at the first and the last character of a text (no previous / no next
+        # character: the helpers get None there), the step function returns -- it does not raise
+        for char in chars:
+            for prev in chars + [None]:
+                for nxt in chars + [None]:
+                    if prev is not None and nxt is not None:
+                        continue
+                    lexeme = "" if prev is None else other + prev
+                    preserve = {"state": enum_cls.FALSE, "end": None}
+                    sim.steps = 0
+                    n_cases += 1
+                    try:
+                        sim.call("lex_char", (char, prev, nxt, lexeme, dict(preserve), g, c_info), {})
+                    except SimRaise as x:
+                        if x.cls in ("LexerError", "ParseError"):
+                            continue
+                        res.add(Finding("LEX-TOTAL", "lexer.lex_char", f"raises {x.cls} at an end of the text",
+                                        f"with {gcls}, lex_char raises {x.cls} for the character {char!r} with previous {prev!r} and next "
+                                        f"{nxt!r} (None = the text starts / ends there): the loader fails with an undocumented exception",
+                                        witness=(prev or "") + char + (nxt or ""), where="pvl/lexer.py"))
+                    except AnalysisError:
+                        raise
+                    except (TypeError, AttributeError) as x:
+                        res.add(Finding("LEX-TOTAL", "lexer.lex_char", f"raises {type(x).__name__} at an end of the text",
+                                        f"with {gcls}, lex_char raises {type(x).__name__} ({x}) for the character {char!r} with previous "
+                                        f"{prev!r} and next {nxt!r} (None = the text starts / ends there): the loader fails with an "
+                                        "undocumented exception instead of LexerError / ParseError",
+                                        witness=(prev or "") + char + (nxt or ""), where="pvl/lexer.py"))
+                    except Exception as x:
+                        raise AnalysisError(f"LEX-TOTAL: lex_char could not be interpreted ({type(x).__name__}: {x})")
+        # LEX-KEEP: outside any preservation state a character that is not white space *of the grammar* is kept in the
+        # lexeme -- in particular the characters Python's str.isspace() calls white space but the grammar does not
+        keep_probe = [c for c in ("\x1c", "\x1d", "\x1e", "\x1f", "\x85", "\xa0", "\u2003", other) if c not in g.whitespace]
+        for char in keep_probe:
+            sim.steps = 0
+            n_cases += 1
+            try:
+                out = sim.call("lex_char", (char, other, other, other, {"state": enum_cls.FALSE, "end": None}, g, c_info), {})
+            except (SimRaise, TypeError, AttributeError):
+                continue
+            if not (isinstance(out, tuple) and isinstance(out[0], str) and out[0].endswith(char)):
+                res.add(Finding("LEX-KEEP", "lexer.lex_char", "drops a character that is not white space of the grammar",
+                                f"with {gcls}, lex_char does not append {char!r} to the lexeme ({out[0] if isinstance(out, tuple) else out!r}) "
+                                "although it is not one of the grammar's white-space characters: the character silently disappears "
+                                "from unquoted values", witness=other + char + other, where="pvl/lexer.py"))
+        res.oblige("LEX-KEEP", f"{gcls}: characters outside the grammar's white space are kept in the lexeme ({len(keep_probe)} probes)",
+                   ok=not any(f.rule == "LEX-KEEP" for f in res.findings))
+        res.oblige("LEX-TOTAL", f"{gcls}: lex_char returns for every delimiter character at the first / last position of a text",
+                   ok=not any(f.rule == "LEX-TOTAL" for f in res.findings))
         res.oblige("COMMENT-KIND", f"{gcls} (comments {comments}): inside an open comment only its own end text changes the "
                                    "preservation state", ok=not any(f.rule == "COMMENT-KIND" for f in res.findings))
     res.floor("COMMENT-KIND combinations explored", n_cases, 40)
